@@ -245,11 +245,14 @@ def owned (r : CResult) : List (Ptr × Nat × Nat) :=
     (if r.size * U64_SIZE = 0 then [] else [(r.data, r.size * U64_SIZE, U64_ALIGN)])
   else []
 
-/-- the same as blocks; a NULL or dangling pointer owns nothing -/
+def ptrId : Ptr → Nat
+  | .blk id => id
+  | _ => 0
+
+/-- the same as blocks (meaningful when every owned pointer is a block, which is what the
+constructors produce: see `AllBlk` in the proofs) -/
 def ownedBlocks (r : CResult) : List Block :=
-  (owned r).filterMap fun
-    | (.blk id, s, a) => some ⟨id, s, a⟩
-    | _ => none
+  (owned r).map fun x => ⟨ptrId x.1, x.2.1, x.2.2⟩
 
 end CResult
 
@@ -607,13 +610,31 @@ def finish {C} (s : State C) (circs : List (Nat × Circ C)) (p : Payload) : Stat
   | none => (s, .abort "cstring-nul")
   | some (hs', r) => ({ hs := hs', circs := circs, results := r :: s.results }, .result r)
 
+/-- every entry point that takes a circuit handle and returns a value -/
+def stepEntry {C} (cfg : Cfg) (api : Api C) (mem : Mem) (s : State C) (call : Call) : State C × Answer :=
+  match call.handle? with
+  | none => (s, .ub "unreachable")
+  | some none =>
+    match entryNull call with
+    | some (.ok p) => finish s s.circs p
+    | some (.error tag) => (s, .abort tag)
+    | none => (s, .ub "unreachable")
+  | some (some id) =>
+    match getCirc s id with
+    | none => (s, .ub "use of a handle that is not live")
+    | some c =>
+      match entry cfg api mem c call with
+      | .num n => (s, .num n)
+      | .abort tag => (s, .abort tag)
+      | .ret c' p => finish s (setCirc s.circs id c') p
+
 def step {C} (cfg : Cfg) (api : Api C) (mem : Mem) (s : State C) (call : Call) : State C × Answer :=
   match call with
   | .new nq nc =>
-    let (hs', p) := s.hs.alloc cfg.circSize cfg.circAlign
     let id := s.hs.next
-    ({ s with hs := hs', circs := (id, ⟨api.new nq nc, nq, nc, [], none, ⟨id, cfg.circSize, cfg.circAlign⟩⟩) :: s.circs },
-     match p with | .blk i => .handle i | _ => .ub "alloc")
+    ({ s with hs := (s.hs.alloc cfg.circSize cfg.circAlign).1,
+              circs := (id, ⟨api.new nq nc, nq, nc, [], none, ⟨id, cfg.circSize, cfg.circAlign⟩⟩) :: s.circs },
+     .handle id)
   | .free none => (s, .unit)
   | .free (some id) =>
     match getCirc s id with
@@ -628,22 +649,7 @@ def step {C} (cfg : Cfg) (api : Api C) (mem : Mem) (s : State C) (call : Call) :
       | .error _ => (s, .ub "result_free faulted")
       | .ok h' => ({ s with hs := { s.hs with heap := h' }, results := s.results.erase r }, .unit)
     else (s, .ub "result_free of a result that is not outstanding")
-  | _ =>
-    match call.handle? with
-    | none => (s, .ub "unreachable")
-    | some none =>
-      match entryNull call with
-      | some (.ok p) => finish s s.circs p
-      | some (.error tag) => (s, .abort tag)
-      | none => (s, .ub "unreachable")
-    | some (some id) =>
-      match getCirc s id with
-      | none => (s, .ub "use of a handle that is not live")
-      | some c =>
-        match entry cfg api mem c call with
-        | .num n => (s, .num n)
-        | .abort tag => (s, .abort tag)
-        | .ret c' p => finish s (setCirc s.circs id c') p
+  | _ => stepEntry cfg api mem s call
 
 def init (C : Type) (heap : Heap) (next : Nat) : State C := ⟨⟨heap, next⟩, [], []⟩
 
